@@ -939,7 +939,9 @@ Section Knot.
             | INone | IObservedDataWarn | IBundleObjects => generic c allow interop kwargs0 [] valid_refs
             | IPositional names =>
               (* named parameters swallow these keys; falsy values are then dropped *)
-              let kw := filter (fun kv => negb (mem_ustr (fst kv) names) || truthy (snd kv)) kwargs0 in
+              let kw := filter (fun kv => negb (mem_ustr (fst kv) names) ||
+                                          (if vr_positional_none vr then negb (jvalue_eqb (snd kv) JNull) else truthy (snd kv)))
+                               kwargs0 in
               generic c allow interop kw [] valid_refs
             | IIndicatorPatternVersion =>
               let g (k : string) := alookup (u k) kwargs0 in
